@@ -38,6 +38,15 @@ def do(op: dict) -> dict:
             s = SI.SchemaMaker.from_json(d)
             WATCH.append((d, copy.deepcopy(d), s, copy.deepcopy(s.json())))
         return {"names": [n for t in trees for n in names_of(t)], "schemas": [canon(d) for d in docs]}
+    if kind == "rebuild":
+        # ONE parse; the JSON Schema is built from it several times (standard, extended vocabulary, standard again)
+        trees = CP.structure(CP.dde_sentences(CP.reference_format(io.StringIO(op["text"]))))
+        fresh = [canon(d) for d in CP.schema_iter(io.StringIO(op["text"]))]
+        first = [canon(CP.JSONSchemaMaker().jsonschema(t)) for t in trees]
+        ext = [canon(CP.JSONSchemaMakerExtendedVocabulary().jsonschema(t)) for t in trees]
+        second = [canon(CP.JSONSchemaMaker().jsonschema(t)) for t in trees]
+        ext2 = [canon(CP.JSONSchemaMakerExtendedVocabulary().jsonschema(t)) for t in trees]
+        return {"fresh": fresh, "first": first, "second": second, "ext_same": ext == ext2}
     if kind == "mkStd":
         CP.JSONSchemaMaker()
         return {"unit": True}
@@ -173,6 +182,31 @@ def do(op: dict) -> dict:
         if op.get("keep"):
             KEEP.append((header_row.nav, {}))
         return out
+    if kind == "twofiles":
+        # two EBCDIC files with different layouts, both open at once, read alternately: one row of A, one row of B, ...
+        import itertools
+        import stingray.workbook as WB
+        sheets = []
+        for f in op["files"]:
+            sch = SI.SchemaMaker.from_json(list(CP.schema_iter(io.StringIO(f["copybook"])))[0])
+            wb = WB.COBOL_EBCDIC_File("history.data", file_object=io.BytesIO(bytes.fromhex(f["data"])))
+            sh = wb.sheet("")
+            sh.set_schema(sch)
+            sheets.append((wb, sh, sh.rows(), f["fields"]))
+        out2: dict = {"rows": [[] for _ in sheets]}
+        try:
+            for k in range(op["max_rows"]):
+                alive = False
+                for j, (wb, sh, it, fields) in enumerate(sheets):
+                    row = next(it, None)
+                    if row is not None:
+                        alive = True
+                        out2["rows"][j].append([repr(row.name(f).value()) for f in fields])
+                if not alive:
+                    break
+        except BaseException as ex:  # noqa: BLE001
+            out2["error"] = err_enum(ex)
+        return out2
     if kind == "drop":
         KEEP.clear()
         gc.collect()
